@@ -25,13 +25,14 @@ Definition supd (m : jmodel) (ka : key * act jval) : jmodel :=
 
 (* one protocol event on a client's view; None = the event is not applicable to it.
    [def]: what the service serves for a name with no stored entry (the Default); a
-   collection that does not exist counts as empty for an add at position 0. *)
+   collection that does not exist, or is the JSON value null, counts as empty for an add at position 0. *)
 Definition spec_step (def : view) (v : view) (e : sevent) : option view :=
   match e, v with
   | SChange vs, Some (RModel m) => Some (Some (RModel (fold_left supd vs m)))
   | SAdd x i, Some (RColl c) =>
     if i <=? len c then Some (Some (RColl (firstn (N.to_nat i) c ++ x :: skipn (N.to_nat i) c))) else None
   | SAdd x i, None => if i =? 0 then Some (Some (RColl [x])) else None
+  | SAdd x i, Some RNull => if i =? 0 then Some (Some (RColl [x])) else None
   | SRemove i, Some (RColl c) =>
     if i <? len c then Some (Some (RColl (firstn (N.to_nat i) c ++ skipn (S (N.to_nat i)) c))) else None
   | SCreate d, None => Some (Some d)
@@ -71,7 +72,7 @@ Fixpoint published (c : cfg) (s : state) (es : list event) : list sevent :=
 (* ---- equality of JSON values ---- *)
 Definition meqv (a b : jmodel) : Prop := forall k, mget k a = mget k b.
 Definition reqv (a b : res) : Prop :=
-  match a, b with RModel x, RModel y => meqv x y | RColl x, RColl y => x = y | _, _ => False end.
+  match a, b with RModel x, RModel y => meqv x y | RColl x, RColl y => x = y | RNull, RNull => True | _, _ => False end.
 Definition veqv (a b : view) : Prop :=
   match a, b with Some x, Some y => reqv x y | None, None => True | _, _ => False end.
 Definition geqv (a b : gres) : Prop :=
@@ -85,7 +86,7 @@ Definition meqb (a b : jmodel) : bool :=
 Fixpoint leqb (a b : list jval) : bool :=
   match a, b with [] , [] => true | x :: a', y :: b' => jeqb x y && leqb a' b' | _, _ => false end.
 Definition reqb (a b : res) : bool :=
-  match a, b with RModel x, RModel y => meqb x y | RColl x, RColl y => leqb x y | _, _ => false end.
+  match a, b with RModel x, RModel y => meqb x y | RColl x, RColl y => leqb x y | RNull, RNull => true | _, _ => false end.
 Definition veqb (a b : view) : bool :=
   match a, b with Some x, Some y => reqb x y | None, None => true | _, _ => false end.
 Definition geqb (a b : gres) : bool :=
